@@ -426,12 +426,16 @@ func generate(r *kit.Rng, maxStmts int) *Set {
 		in, out []*stmt
 	}
 	var rpcs []rp
+	scoped := []string{"int32 { range \"0..9\"; } default 3; units sev", "decimal64 { fraction-digits 1; } default 99.5; units pct", "string { length \"1..8\"; } default abc", "uint8"}
 	for i := 0; i < r.Range(1, 3); i++ {
 		x := rp{name: g.id("rpc")}
 		x.in = g.body(2, true)
 		x.out = g.body(2, false)
+		// a typedef of the same name in every rpc's input scope: lookups must respect scope
+		lvl := &stmt{kind: "leaf", name: g.id("f"), typ: "level"}
+		x.in = append(x.in, lvl)
 		rpcs = append(rpcs, x)
-		fmt.Fprintf(&mb, "  rpc %s {\n    input {\n", x.name)
+		fmt.Fprintf(&mb, "  rpc %s {\n    input {\n      typedef level { type %s; }\n", x.name, scoped[i%len(scoped)])
 		emit(&mb, 3, x.in)
 		mb.WriteString("    }\n    output {\n")
 		emit(&mb, 3, x.out)
@@ -445,8 +449,9 @@ func generate(r *kit.Rng, maxStmts int) *Set {
 	for i := 0; i < r.Range(1, 3); i++ {
 		x := nt{name: g.id("ntf")}
 		x.body = g.body(2, true)
+		x.body = append(x.body, &stmt{kind: "leaf", name: g.id("f"), typ: "level"})
 		notifs = append(notifs, x)
-		fmt.Fprintf(&mb, "  notification %s {\n", x.name)
+		fmt.Fprintf(&mb, "  notification %s {\n    typedef level { type %s; }\n", x.name, scoped[(i+2)%len(scoped)])
 		emit(&mb, 2, x.body)
 		mb.WriteString("  }\n")
 	}
@@ -468,6 +473,19 @@ func generate(r *kit.Rng, maxStmts int) *Set {
 		emit(&mb, 2, add)
 		mb.WriteString("  }\n")
 		t.children = append(t.children, g.expand(add)...)
+	}
+	// deviations: remove one child that has at least two later siblings
+	for _, t := range targets {
+		if len(t.children) >= 4 && r.Chance(1, 2) {
+			k := r.Intn(len(t.children) - 2)
+			victim := t.children[k]
+			if victim.kind == "choice" || victim.kind == "case" {
+				continue
+			}
+			fmt.Fprintf(&mb, "  deviation \"/%s/%s\" { deviate not-supported; }\n", t.name, victim.name)
+			t.children = append(t.children[:k:k], t.children[k+1:]...)
+			break
+		}
 	}
 	mb.WriteString("}\n")
 	set.Files["m"] = mb.String()
